@@ -31,6 +31,10 @@ Definition check_instr (a : list abs) (i : nat) (ins : instr) : bool :=
   | IWait c m => mem m (locks H) && eqa nx H
   | ITimedWait c m => mem m (locks H) && eqa nx H
   | IPoll x _ tgt => guarded (gv x) (locks H) && eqa nx H && eqa (at_ tgt) H
+  | IRunC t1 t2 => hascur H && eqa nx (mkA (locks H) false) && eqa (at_ t1) (mkA (locks H) false) &&
+                   eqa (at_ t2) (mkA (locks H) false)
+  | IRunW x t0 t1 => guarded (gv x) (locks H) && hascur H && eqa nx (mkA (locks H) false) &&
+                     eqa (at_ t0) (mkA (locks H) false) && eqa (at_ t1) (mkA (locks H) false)
   | IWr x _ => guarded (gv x) (locks H) && eqa nx H
   | IInc x => guarded (gv x) (locks H) && eqa nx H
   | IDec x => guarded (gv x) (locks H) && eqa nx H
@@ -413,6 +417,22 @@ Proof.
          [ intros u Hu; cbn; rewrite upd_other by exact Hu; left; reflexivity
          | intros; cbn; tauto
          | cbn; rewrite upd_same; eapply ready_intro; [exact Est| unfold ann at 1; cbn; eassumption | intros m0; apply Hown | exact Hcur ] ]).
+      (* IRunC *)
+      * destruct (cur (thr s t)) eqn:Ec; [|inversion E; subst s'; exact I].
+        destruct (isdrain s c) eqn:ED; [|destruct (resub s c) eqn:ER]; inversion E; subst s'; clear E;
+        (eapply inv_frame with (t := t); [exact I| |reflexivity| |];
+         [ intros u Hu; cbn; rewrite upd_other by exact Hu; left; reflexivity
+         | intros; cbn; tauto
+         | cbn; rewrite upd_same;
+           eapply ready_intro; [exact Est| unfold ann at 1; cbn; eassumption | intros m0; apply Hown | reflexivity ] ]).
+      (* IRunW *)
+      * destruct (cur (thr s t)) eqn:Ec; [|inversion E; subst s'; exact I].
+        destruct (snd c) as [|[|v]]; inversion E; subst s'; clear E;
+        (eapply inv_frame with (t := t); [exact I| |reflexivity| |];
+         [ intros u Hu; cbn; rewrite upd_other by exact Hu; left; reflexivity
+         | intros; cbn; tauto
+         | cbn; rewrite upd_same;
+           eapply ready_intro; [exact Est| unfold ann at 1; cbn; eassumption | intros m0; apply Hown | reflexivity ] ]).
     + (* Asleep in a timed wait: time-out *)
       destruct (fetch P (thr s t)) eqn:EIa; try discriminate E.
       inversion E; subst s'; clear E.
@@ -473,7 +493,7 @@ Qed.
 (* ---- consequences used by the property theorems *)
 Definition acc_var (i : instr) : option nat :=
   match i with
-  | IWr x _ | IInc x | IDec x | ILd x | IBrVar x _ _ | IPoll x _ _ => Some x
+  | IWr x _ | IInc x | IDec x | ILd x | IBrVar x _ _ | IPoll x _ _ | IRunW x _ _ => Some x
   | _ => None
   end.
 Definition acc_que (i : instr) : option nat :=
